@@ -121,6 +121,7 @@ class ObjRunner:
             full.setdefault(k, v)
         it = (ForkInterp(full, self.oracle, call_hook=self.hook, loop_hook=self.loop, strict=True, name_hook=self.names, attr_hook=self.attrs) if self.fork
               else Interp(full, call_hook=self.hook, loop_hook=self.loop, strict=True, name_hook=self.names, attr_hook=self.attrs))
+        it.str_hook = self.text_of
         it.run(stmts)
         return it.env
 
@@ -154,6 +155,13 @@ class ObjRunner:
                     if j < 0:
                         raise AnalysisError(f"object model: missing argument {p!r} for {f.key}")
                     env[p] = Interp(dict(self.module_env(f.module.rel))).ev(defaults[j])
+            for a, d in zip(node.args.kwonlyargs, node.args.kw_defaults):
+                if a.arg in kw:
+                    env[a.arg] = kw[a.arg]
+                elif d is not None:
+                    env[a.arg] = Interp(dict(self.module_env(f.module.rel))).ev(d)
+                else:
+                    raise AnalysisError(f"object model: missing keyword argument {a.arg!r} for {f.key}")
             self.calls.append(f.key)
             if f.cls is not None:
                 env["__defining_class__"] = f.cls.name
@@ -162,6 +170,7 @@ class ObjRunner:
                 env.setdefault(k, v)
             it = (ForkInterp(env, self.oracle, call_hook=self.hook, loop_hook=self.loop, strict=True, name_hook=self.names, attr_hook=self.attrs) if self.fork
                   else Interp(env, call_hook=self.hook, loop_hook=self.loop, strict=True, name_hook=self.names, attr_hook=self.attrs))
+            it.str_hook = self.text_of
             try:
                 it.run(node.body)
             except Flow as fl:
@@ -210,6 +219,17 @@ class ObjRunner:
         if f is not None and any(U(d) in ("property", "functools.cached_property", "cached_property") for d in f.node.decorator_list):
             return self.run_function(f, base, (), {})
         return NotImplemented
+
+    def text_of(self, obj, kind, node):
+        """str()/repr()/f-string text of a modelled object: the __str__ (else __repr__) its class defines, else a neutral placeholder."""
+        cls = obj.get("__class__")
+        if isinstance(cls, str) and not obj.get("__is_class__"):
+            f = (self.find(cls, "__str__") if kind == "str" else None) or self.find(cls, "__repr__")
+            if f is not None:
+                return self.run_function(f, obj, (), {})
+            if "__str__" in obj:
+                return obj["__str__"]
+        return f"<{cls} object>"
 
     def class_ref(self, name, node=None):
         """Model of a class object: its name and the constants assigned in its body."""
@@ -376,6 +396,11 @@ class ObjRunner:
                 f = self.find(recv["__class__"], attr)
                 if f is not None:
                     return self.run_function(f, recv, args, kw)
+                ci = self.cinfo(recv["__class__"])
+                if ci is not None and attr not in recv and all(b in self.prog.classes_by_name or b == "object" for c_ in self.prog.mro(ci)
+                                                                for b in (U(x) for x in c_.node.bases)):
+                    # a repository class whose whole ancestry is in the repository: the method does not exist
+                    raise Flow("raise", f"AttributeError({recv['__class__']!r} object has no attribute {attr!r})", call)
             if U(call.func.value).endswith("ContentHandler"):
                 return None
         if isinstance(call.func, ast.Attribute) and isinstance(call.func.value, ast.Name) and call.func.value.id == "str" and "str" not in interp.env \
